@@ -8,7 +8,12 @@
 //! `ChannelProbe` attached to one channel of every link.
 //!
 //! Script lines (objects are named by tags, so any line may be deleted):
-//!   case <id> stop=never0|never|itr:<n>|time:<ns>|full drop=ap|pa
+//!   case <id> stop=never0|never|itr:<n>|time:<ns>|full drop=ap|pa end=finish|nofinish|apperr|unwind
+//!        end=finish  : start, dispatch_all (limits from the Builder), finish(), drop what it returned
+//!        end=nofinish: manual stepping: start, dispatch_n_events / dispatch_events_until / dispatch_all, then the
+//!                      Runtime is dropped WITHOUT finish()
+//!        end=apperr  : as finish, but the inner application's at_sim_end returns Err (finish() returns Err)
+//!        end=unwind  : a panic unwinds through the started Runtime while it is in scope (caught by the harness)
 //!   mod <M> parent=<P|-> pe=<n> stages=<s>          module; path = <P's path>.<M>
 //!   chain <C> ch=none|q|qs|d ring=0|1 mods=<M,M,…>  gate `C` on every listed module, consecutive gates
 //!                                                   connected (ring=1: last to first as well); q = Queue(None),
@@ -25,12 +30,14 @@
 //!               keep                                (msg hook) store the received message in the module struct
 //!               shutdown | restart <ns>             current().shutdown() / shutdow_and_restart_in (once per module)
 //!               panic                               the handler panics (module error)
+//!               pepanic                             (msg hook) a processing element of <M> panics in `incoming` on that
+//!                                                   message id: outside the module harness, the panic unwinds out of run()
 //!   init <M> <id> <time> <B|->                      message injected with handle_message_on before the run
 //! Transcript: the same lines, then
 //!   stop now=<ns> fes=<n> down=<M,…|-> kept=<n> queued=<n>      state after the event loop, before finish()
 //!   q <C> <dir> <n,n,…>                                         queued packets per link of chain <C> (fwd / bwd)
 //!   fin res=ok|err|panic rem=<n> hm=<n> ex=<n> ub=<n> rs=<n> aw=<n>   finish(): remaining events by kind
-//!   obj <kind> <tag#k> c=<created> s=<dropped at stop> d=<dropped at the end>
+//!   obj <kind> <tag#k> c=<created> s=<dropped at stop> d=<dropped right after the drop> l=<dropped after sim2 and sim3>
 //!   sim2 <trace> / sim3 <trace>                                 second and third simulation run in the same process afterwards:
 //!                                                               clock readings while the network is built (n, cx, kx, cy, ky, m), then the run
 use crate::rng::Rng;
@@ -51,6 +58,7 @@ struct Obj {
     created: u32,
     dropped: u32,
     at_stop: u32,
+    after_drop: u32,
 }
 
 #[derive(Default)]
@@ -77,7 +85,7 @@ impl Tracked {
             let k = r.inst.entry(format!("{kind}:{tag}")).or_insert(0);
             let name = format!("{tag}#{k}");
             *k += 1;
-            r.objs.push(Obj { kind, tag: name, created: 1, dropped: 0, at_stop: 0 });
+            r.objs.push(Obj { kind, tag: name, created: 1, dropped: 0, at_stop: 0, after_drop: 0 });
             Tracked(r.objs.len() - 1)
         })
     }
@@ -125,6 +133,7 @@ enum Act {
     Shutdown,
     Restart(u64),
     Panic,
+    PePanic,
 }
 
 #[derive(Clone, Debug, Default)]
@@ -175,6 +184,7 @@ fn parse_act(t: &[&str], chains: &[ChainSpec], own: &str) -> Option<Act> {
         ["shutdown"] => Some(Act::Shutdown),
         ["restart", ns] => Some(Act::Restart(ns.parse().ok()?)),
         ["panic"] => Some(Act::Panic),
+        ["pepanic"] => Some(Act::PePanic),
         _ => None,
     }
 }
@@ -271,8 +281,38 @@ fn connect(a: GateRef, b: GateRef, ch: Option<ChannelRef>, tag: &str) {
 struct Pe {
     #[allow(dead_code)]
     t: Tracked,
+    panic_on: Vec<u16>,
 }
-impl ProcessingElement for Pe {}
+impl ProcessingElement for Pe {
+    fn incoming(&mut self, msg: Message) -> Option<Message> {
+        if self.panic_on.contains(&msg.header().id) {
+            panic!("scripted processing element panic");
+        }
+        Some(msg)
+    }
+}
+
+/// the inner application: its at_sim_end fails on request
+struct App {
+    fail_end: bool,
+}
+#[derive(Debug)]
+struct AppEndError;
+impl std::fmt::Display for AppEndError {
+    fn fmt(&self, f: &mut std::fmt::Formatter<'_>) -> std::fmt::Result {
+        write!(f, "scripted application error")
+    }
+}
+impl std::error::Error for AppEndError {}
+impl EventLifecycle<Sim<App>> for App {
+    fn at_sim_end(rt: &mut Runtime<Sim<App>>) -> Result<(), RuntimeError> {
+        if rt.app.inner.fail_end {
+            Err(RuntimeError::new(vec![AppEndError]))
+        } else {
+            Ok(())
+        }
+    }
+}
 
 struct Node {
     spec: Arc<ModSpec>,
@@ -361,6 +401,7 @@ impl Node {
                     }
                 }
                 Act::Panic => panic!("scripted panic"),
+                Act::PePanic => {}
             }
         }
     }
@@ -369,7 +410,12 @@ impl Node {
 impl Module for Node {
     fn stack(&self, mut stack: ProcessingStack) -> ProcessingStack {
         for i in 0..self.spec.pe {
-            stack.append(Pe { t: Tracked::new("pe", &format!("{}.{}", self.spec.tag, i)) });
+            let panic_on: Vec<u16> = if i == 0 {
+                self.spec.msg.iter().filter(|(_, a)| a.iter().any(|x| matches!(x, Act::PePanic))).map(|(k, _)| *k as u16).collect()
+            } else {
+                Vec::new()
+            };
+            stack.append(Pe { t: Tracked::new("pe", &format!("{}.{}", self.spec.tag, i)), panic_on });
         }
         stack
     }
@@ -418,8 +464,8 @@ fn snapshot_stop() {
     });
 }
 
-fn simulate(sc: &Script, stop: &str, drop_order: &str, out: &mut Vec<String>) {
-    let mut sim = Sim::new(());
+fn simulate(sc: &Script, stop: &str, drop_order: &str, end: &str, out: &mut Vec<String>) {
+    let mut sim = Sim::new(App { fail_end: end == "apperr" });
     let mut made: Vec<String> = Vec::new();
     for m in &sc.mods {
         let spec = Arc::new(m.clone());
@@ -455,10 +501,15 @@ fn simulate(sc: &Script, stop: &str, drop_order: &str, out: &mut Vec<String>) {
         return;
     }
     let mut builder = Builder::seeded(1).quiet();
-    if let Some(n) = stop.strip_prefix("itr:").and_then(|v| v.parse::<usize>().ok()) {
+    let lim_itr = stop.strip_prefix("itr:").and_then(|v| v.parse::<usize>().ok());
+    let lim_time = stop.strip_prefix("time:").and_then(|v| v.parse::<u64>().ok()).map(|t| SimTime::from_duration(Duration::from_nanos(t)));
+    let manual = end == "nofinish";
+    if manual {
+        builder = builder.max_itr(20000);
+    } else if let Some(n) = lim_itr {
         builder = builder.max_itr(n);
-    } else if let Some(t) = stop.strip_prefix("time:").and_then(|v| v.parse::<u64>().ok()) {
-        builder = builder.max_time(SimTime::from_duration(Duration::from_nanos(t)));
+    } else if let Some(t) = lim_time {
+        builder = builder.max_time(t);
     } else {
         builder = builder.max_itr(20000);
     }
@@ -474,8 +525,31 @@ fn simulate(sc: &Script, stop: &str, drop_order: &str, out: &mut Vec<String>) {
         drop(rt);
         return;
     }
-    rt.start();
-    rt.dispatch_all();
+    // a panic that unwinds out of start / dispatch drops the Runtime on its way (it is owned by the closure)
+    let stepped = guarded(move || {
+        rt.start();
+        if manual {
+            if let Some(n) = lim_itr {
+                rt.dispatch_n_events(n);
+            } else if let Some(t) = lim_time {
+                rt.dispatch_events_until(t);
+            } else {
+                rt.dispatch_all();
+            }
+        } else {
+            rt.dispatch_all();
+        }
+        rt
+    });
+    let mut rt = match stepped {
+        Ok(rt) => rt,
+        Err(_) => {
+            snapshot_stop();
+            out.push("stop now=0 fes=0 down=- kept=0 queued=0".into());
+            out.push("fin res=unwound rem=0 hm=0 ex=0 ub=0 rs=0 aw=0".into());
+            return;
+        }
+    };
     // ---- state at the stopping point
     snapshot_stop();
     let globals = rt.app.globals();
@@ -517,6 +591,22 @@ fn simulate(sc: &Script, stop: &str, drop_order: &str, out: &mut Vec<String>) {
         queued
     ));
     out.extend(qlines);
+    if end == "nofinish" {
+        out.push("fin res=nofinish rem=0 hm=0 ex=0 ub=0 rs=0 aw=0".into());
+        drop(rt);
+        return;
+    }
+    if end == "unwind" {
+        out.push("fin res=unwound rem=0 hm=0 ex=0 ub=0 rs=0 aw=0".into());
+        let r = guarded(move || {
+            let _keep = &mut rt;
+            if _keep.num_events_dispatched() < usize::MAX {
+                panic!("scripted panic while a Runtime is in scope");
+            }
+        });
+        drop(r);
+        return;
+    }
     // ---- finish and drop everything
     match rt.finish() {
         Ok((app, _time, prof)) => {
@@ -608,6 +698,15 @@ impl Module for Y2 {
     }
 }
 
+/// run one follow-up simulation on a helper thread; `None` = it did not come back within 10 s
+fn follow_up() -> Option<String> {
+    let (tx, rx) = std::sync::mpsc::channel();
+    std::thread::spawn(move || {
+        let _ = tx.send(second_sim());
+    });
+    rx.recv_timeout(std::time::Duration::from_secs(10)).ok()
+}
+
 fn second_sim() -> String {
     reg(|r| r.log2.clear());
     let res = guarded(|| {
@@ -648,23 +747,43 @@ pub fn exec(input: &str) -> String {
         let order = hval(&header, "drop").unwrap_or_else(|| "ap".into());
         *REG.lock().unwrap_or_else(|e| e.into_inner()) = Some(Registry::default());
         let mut lines = Vec::new();
-        let res = guarded(|| simulate(&sc, &stop, &order, &mut lines));
+        let end = hval(&header, "end").unwrap_or_else(|| "finish".into());
+        let res = guarded(|| simulate(&sc, &stop, &order, &end, &mut lines));
         if res.is_err() {
             if !lines.iter().any(|l| l.starts_with("stop ")) {
                 lines.push("stop now=0 fes=0 down=- kept=0 queued=0".into());
             }
+            lines.retain(|l| !l.starts_with("fin "));
             lines.push("fin res=panic rem=0 hm=0 ex=0 ub=0 rs=0 aw=0".into());
         }
         for l in &lines {
             writeln!(out, "{l}").unwrap();
         }
-        let objs: Vec<String> = reg(|r| r.objs.iter().map(|o| format!("obj {} {} c={} s={} d={}", o.kind, o.tag, o.created, o.at_stop, o.dropped)).collect());
+        // the counters right after the drop, before any later simulation is built
+        reg(|r| {
+            for o in r.objs.iter_mut() {
+                o.after_drop = o.dropped;
+            }
+        });
+        // the follow-up simulations run on a helper thread so that a dead-lock can be reported
+        let s2 = follow_up();
+        let s3 = if s2.is_some() { follow_up() } else { None };
+        let objs: Vec<String> = reg(|r| {
+            r.objs.iter().map(|o| format!("obj {} {} c={} s={} d={} l={}", o.kind, o.tag, o.created, o.at_stop, o.after_drop, o.dropped)).collect()
+        });
         for l in objs {
             writeln!(out, "{l}").unwrap();
         }
-        writeln!(out, "sim2 {}", second_sim()).unwrap();
-        writeln!(out, "sim3 {}", second_sim()).unwrap();
+        writeln!(out, "sim2 {}", s2.clone().unwrap_or_else(|| "hung".into())).unwrap();
+        writeln!(out, "sim3 {}", s3.clone().unwrap_or_else(|| if s2.is_some() { "hung".into() } else { "skipped".into() })).unwrap();
         writeln!(out, "end").unwrap();
+        if s2.is_none() || s3.is_none() {
+            // a simulation is stuck in this process (and holds its locks): nothing more can be run here
+            print!("{out}");
+            use std::io::Write as _;
+            let _ = std::io::stdout().flush();
+            std::process::exit(0);
+        }
     }
     out
 }
@@ -685,7 +804,17 @@ pub fn gen(seed: u64, count: usize, thorough: bool) -> String {
             _ => "full".to_string(),
         };
         let order = if r.chance(1, 2) { "ap" } else { "pa" };
-        writeln!(out, "case {k} stop={stop} drop={order}").unwrap();
+        let end = if stop.starts_with("never") {
+            "finish"
+        } else {
+            match r.below(10) {
+                0..=1 => "nofinish",
+                2 => "apperr",
+                3 => "unwind",
+                _ => "finish",
+            }
+        };
+        writeln!(out, "case {k} stop={stop} drop={order} end={end}").unwrap();
         let mods: Vec<String> = (0..nmods).map(|i| format!("m{i}")).collect();
         for (i, m) in mods.iter().enumerate() {
             let parent = if i > 0 && r.chance(1, 2) { mods[r.below(i as u64) as usize].clone() } else { "-".to_string() };
@@ -780,6 +909,7 @@ pub fn gen(seed: u64, count: usize, thorough: bool) -> String {
                     }
                 }
                 12 if r.chance(1, 4) => "panic".to_string(),
+                13 if hook == "msg" && r.chance(1, 3) => "pepanic".to_string(),
                 _ => {
                     let b = body(&mut r, &mut bcount);
                     format!("sched {id} {delay} {b}")
